@@ -34,6 +34,7 @@ import Kust.NsFilter
 import Kust.Select
 import Kust.CrdConfig
 import Kust.KioRead
+import Kust.SmPatchId
 import Kust.Gen.Lists
 import Kust.Gen.FieldSpecs
 import Kust.Gen.Lists
@@ -606,6 +607,24 @@ def runCrd (a : Json) : Except String Json := do
   let ls := ((CrdConfig.config types).map line).eraseDups.mergeSort (fun x y => x ≤ y)
   return Json.mkObj [("ok", strsJ ls)]
 
+def runSmPatchId (a : Json) : Except String Json := do
+  let cs := csOfJson (a.getObjValD "cs")
+  let c ← candOfJ (a.getObjValD "res")
+  let pn : List String := c.prev.map fun i => i.name
+  let pns : List String := c.prev.map fun i => i.ns
+  let pk : List String := c.prev.map fun i => i.gvk.kind
+  let r : Res.R := ⟨c.cur.gvk, c.cur.name, c.cur.ns, pn, pns, pk, c.prefixes, c.suffixes⟩
+  let pj := a.getObjValD "patch"
+  let o : SmPatchId.Opts := ⟨jB pj "allowName", jB pj "allowKind"⟩
+  match SmPatchId.apply cs o r (some (jS pj "kind", jS pj "name", jS pj "ns")) with
+  | none => return Json.mkObj [("ok", Json.null)]
+  | some r' =>
+    match r'.prevIds with
+    | .ok prev => return Json.mkObj [("ok", Json.mkObj [("cur", idToJson r'.curId), ("prev", Json.arr (prev.map idToJson).toArray),
+        ("prefixes", strsJ r'.prefixes), ("suffixes", strsJ r'.suffixes)])]
+    | .err e => return Json.mkObj [("err", Json.str e)]
+    | .panic e => return Json.mkObj [("panic", Json.str e)]
+
 /-! ### replacement filter -/
 namespace ReplJ
 open Kust.Repl
@@ -771,6 +790,7 @@ def dispatch (comp : String) (args : Json) : Except String Json :=
   | ["fns", op] => runFns op args
   | ["resmap", "subset"] => runSubset args
   | ["refvar", "expand"] => runRefVar args
+  | ["res", "smpatch"] => runSmPatchId args
   | ["res", op] => runRes op args
   | ["fmt", "nonstring"] => runFmtSchema args
   | ["fmt", op] => runFmt op args
